@@ -639,6 +639,9 @@ class C11(core.PropertyCheck):
             files["source/includes/steps-setup.yaml"] = {"text": self.gen_yaml(rng, "steps")}
         if rng.random() < 0.8:
             files["source/includes/extracts-notes.yaml"] = {"text": self.gen_yaml(rng, "extracts")}
+        if rng.random() < 0.12:
+            # a YAML file that cannot even be decoded: it reads as empty text plus a diagnostic
+            files["source/includes/" + rng.choice(["steps-setup.yaml", "extracts-notes.yaml"])] = {"hex": (b"ref: a\ncontent: caf\xe9\n").hex()}
         if rng.random() < 0.25:
             # a YAML file that cannot be parsed generates no page: its diagnostics belong to no page ("orphan")
             files["source/includes/" + rng.choice(["extracts-bad.yaml", "steps-bad.yaml"])] = {"text": rng.choice(["title: foo\n  bad: [\n", "- just\n- a list\n", "ref: [unclosed\n"])}
@@ -696,6 +699,18 @@ class C11(core.PropertyCheck):
                 op["hex"] = rng.choice([b"", b"\x1f\x8b\x08\x00", gzip.compress(b"junk"), gzip.compress(pickle.dumps({"a": 1})),
                                         gzip.compress(pickle.dumps(parse_cache.CacheData(("x",)))), os.urandom(0) + b"\x80\x05."]).hex()
             return op
+        if r < 0.30:
+            # an edit that removes the CAUSE of a read diagnostic but leaves the decoded, constant-substituted text as it was:
+            # an undeclared constant (rendered as U+200B) replaced by a literal U+200B; an undecodable file (read as empty
+            # text) replaced by an empty file. The cache key of the file's text does not change - the diagnostics must.
+            cands = [f for f, v in sorted(files.items()) if f.startswith("source/") and (("text" in v and ("{+nope+}" in v["text"] or "{+nope2+}" in v["text"])) or
+                                                                                          ("hex" in v and f.endswith((".txt", ".rst", ".yaml"))))]
+            if cands:
+                f = rng.choice(cands)
+                v = files[f]
+                if "text" in v:
+                    return {"op": "write", "path": f, "text": v["text"].replace("{+nope+}", "\u200b").replace("{+nope2+}", "\u200b")}
+                return {"op": "write", "path": f, "text": ""}
         path = rng.choice(mentioned)
         exists_now = path in files
         if exists_now and rng.random() < 0.35 and path != "source/index.txt":
